@@ -31,7 +31,8 @@ Proof. destruct k; cbn; tauto. Qed.
                  CPython says; no rule of the library relates truthiness to the order.
    VNone       : None.
    VOther k i t: any other scalar object (not comparable with the constants, equal to none of them).
-   VColl k xs  : a finite re-iterable collection (list/tuple/set/dict keys/range) and its elements in
+   VColl k xs  : a finite re-iterable collection (list/tuple/set/dict keys/range, and a str that is not of the
+                 constants' sort: iterable, its characters being opaque scalars) and its elements in
                  iteration order. *)
 Inductive val :=
 | VQ (k : kind) (q : Q) (truthy : bool)
@@ -53,11 +54,14 @@ Definition veq (x : val) (c : Q) : bool := match x with VQ _ q _ => Qeq_bool q c
 (* x in s for a set of constants; requires x hashable *)
 Definition vmem (x : val) (s : qset) : bool := match x with VQ _ q _ => mem q s | _ => false end.
 
-(* hashable(x): lists, sets and dicts are not; a tuple is iff its elements are *)
+(* x is acceptable as the left operand of `x in <set>`: lists and dicts are not (TypeError: unhashable);
+   a tuple is iff its elements are; a set is (CPython looks it up as a temporary frozenset) *)
 Fixpoint hashable (x : val) : bool :=
   match x with
   | VColl KTuple items => forallb hashable items
   | VColl KRange _ => true
+  | VColl KSet _ => true
+  | VColl KStr _ => true
   | VColl _ _ => false
   | _ => true
   end.
